@@ -15,6 +15,7 @@ import subprocess
 import common
 import omen_level as ol
 import trainer_io as tio
+import unicode_pool
 
 common.repo_on_path()
 
@@ -80,7 +81,7 @@ def gen_plain(rng, nonascii=False):
     return w
 
 
-def gen_full_training(rng, kind=None):
+def gen_full_training(rng, kind=None, non_nfc=False):
     """A training list for the real trainer.  kinds: full_mixed (ordinary + e-mail + web site looking strings),
     full_mailweb (mostly e-mail / web site looking), full_plain (none), full_small_alphabet (alphabet so small that
     '@' / '.' may fall out of it)."""
@@ -99,11 +100,16 @@ def gen_full_training(rng, kind=None):
             distinct.append(gen_site(rng, T))
         else:
             distinct.append(gen_plain(rng, nonascii))
+    if non_nfc:
+        # passwords that are not in Unicode normal form C beside their NFC twins (harness/unicode_pool.py; utf-8 only)
+        encoding = "utf-8"
+        for _, s, t in unicode_pool.password_pairs(rng, rng.randint(2, 4)):
+            distinct += [s] if s == t else [s, t]
     pws = []
     for p in distinct:
         pws += [p] * rng.choice([1, 1, 1, 2, 2, 3, 5])
     rng.shuffle(pws)
-    return {"kind": kind, "stage": "full", "passwords": pws, "ngram": rng.choice([2, 3, 4, 4, 4, 5]),
+    return {"kind": kind + ("+non_nfc" if non_nfc else ""), "stage": "full", "passwords": pws, "ngram": rng.choice([2, 3, 4, 4, 4, 5]),
             "alphabet_size": rng.choice([10, 12, 16]) if kind == "full_small_alphabet" else rng.choice([100, 100, 40]),
             "max_len": 21, "encoding": encoding, "coverage": rng.choice([0.6, 0.6, 0.0, 1.0]),
             "save_sensitive": rng.random() < 0.5,
@@ -123,8 +129,7 @@ class FullTrained(ol.Trained):
         os.makedirs(base_dir, exist_ok=True)
         tf = os.path.join(base_dir, "training.txt")
         with open(tf, "wb") as f:
-            for p in cfg["passwords"]:
-                f.write(p.encode(enc, errors="surrogateescape") + b"\n")
+            f.write(ol.training_bytes(cfg["passwords"], None, enc))
         rec = tio.train_inprocess(tf, enc, self.base_dir, coverage=cfg.get("coverage", 0.6), ngram=cfg["ngram"],
                                   alphabet_size=cfg["alphabet_size"], save_sensitive=cfg.get("save_sensitive", False))
         self.rec = rec
@@ -275,8 +280,7 @@ def start_cli(T, name, strings, to_file):
     work = os.path.dirname(T.base_dir)
     inp = os.path.join(work, "score_in.txt")
     with open(inp, "wb") as f:
-        for s in strings:
-            f.write(s.encode(T.cfg["encoding"]) + b"\n")
+        f.write(ol.training_bytes(strings, None, T.cfg["encoding"]))
     outp = os.path.join(work, "score_out.txt") if to_file else None
     env = common.subenv()
     env["PYTHONPATH"] = code
